@@ -12,6 +12,10 @@ use poulpy_verif_harness::hal::*;
 use poulpy_verif_harness::rec::*;
 use poulpy_verif_harness::with_be;
 
+// the HAL convolution layer (opcodes 5001..5004) is exercised by the C05 harness code; C07 runs those records too
+#[path = "c05.rs"]
+#[allow(dead_code)]
+mod c05;
 #[path = "../c07_ntt.rs"]
 mod c07_ntt;
 #[path = "../c07_net.rs"]
@@ -160,6 +164,7 @@ fn op(r: &Rec) -> Vec<Vec<i128>> {
 }
 
 pub fn exec(r: &Rec) -> Out {
+    if (5000..6000).contains(&r.code) { return c05::exec(r); }
     let r2 = r.clone();
     guard(move || op(&r2))
 }
@@ -233,6 +238,7 @@ pub fn generate(tier: &str, seed: u64) -> Vec<Rec> {
     }
     c07_ntt::generate(tier, &mut rng, &mut out);
     c07_net::generate(tier, &mut rng, &mut out);
+    out.extend(c05::generate(tier, seed.wrapping_add(5)).into_iter().filter(|r| (5001..=5004).contains(&r.code)));
     out
 }
 
